@@ -83,6 +83,8 @@ def run(repo, rep):
     from . import c05 as _c05
 
     rep.run_borrowed(_c05, {"C05-g": "C13-ae"}, repo)
+    rep.clause("C13-bb", "the linear allocator visits a live range once: every tensor of a placed range is recorded as allocated (an assertion otherwise) [rule shared with C05-i]")
+    rep.run_borrowed(_c05, {"C05-i": "C13-bb"}, repo, only_sites=("linear_allocate_live_ranges",))
     rep.clause("C13-af", "Operation.clone copies every member and runs validating setters after the members they read (a clone with AwayZero rounding asserts otherwise) [rule shared with C08-p]")
     from .shared import clone_completeness as _cc
 
@@ -105,6 +107,10 @@ def run(repo, rep):
     rule_driver_created_operators(repo, rep)
     rep.clause("C13-ay", "STRIDED_SLICE begin / end positions end up inside [0, dim] whatever the operand holds (the offsets become read windows unchecked)")
     rule_slice_offsets_bounded(repo, rep)
+    rep.clause("C13-az", "the reader's and the driver's file-type dispatch agree: a name that read_model accepts as .tflite / .tosa is a name for which vela.process writes that kind of output (same predicate, same case handling)")
+    rule_file_type_dispatch(repo, rep)
+    rep.clause("C13-ba", "operator attributes that hold subgraphs are written as the containers their readers iterate (CALL_ONCE / WHILE / IF: tuples)")
+    rule_subgraph_attr_shape(repo, rep)
     rep.clause("C13-au", "members of an operator's (optional) options table are read with .get() or under a membership test in the reader")
     rule_option_members_optional(repo, rep)
     rep.clause("C13-aq", "the scale check rejects a tensor if any of its scales is infinite (quantifier kept under negation)")
@@ -2618,3 +2624,75 @@ def rule_slice_offsets_bounded(repo, rep):
               f"begin / end positions are normalised into [0, dim] ({pts} points, dim {dim})",
               (f"{wrong[0][0]} = {wrong[0][1]} in a dimension of {dim} becomes offset {wrong[0][2]} (TFLite clamps: {wrong[0][3]}): the offset is used as a read window as it is "
                "(STRIDED_SLICE with begin -100: AssertionError in Tensor.address_for_coordinate)") if wrong else "")
+
+
+def rule_file_type_dispatch(repo, rep):
+    """model_reader.read_model decides which reader parses the input; vela.process decides which writer runs. Both look at the file name. The
+    two decisions are compared as predicates: for each extension literal, (how the name is tested, whether the tested string is case
+    folded). A reader that accepts `net.TFLITE` with a driver that does not writes no output and returns status 0."""
+    def signatures(mname, q):
+        m = repo.mod(mname)
+        f = m.func(q)
+        if f is None:
+            raise AnalysisError(f"{mname}.{q} not found")
+        loc = {}
+        for a in ast.walk(f):
+            if isinstance(a, ast.Assign) and len(a.targets) == 1 and isinstance(a.targets[0], ast.Name):
+                loc.setdefault(a.targets[0].id, []).append(a.value)
+
+        def folded(e):
+            seen = 0
+            while isinstance(e, ast.Name) and len(loc.get(e.id, [])) == 1 and seen < 3:
+                e = loc[e.id][0]
+                seen += 1
+            return any(isinstance(c, ast.Call) and isinstance(c.func, ast.Attribute) and c.func.attr in ("lower", "casefold", "upper") for c in ast.walk(e))
+
+        out = {}
+        for i in ast.walk(f):
+            if not isinstance(i, ast.If):
+                continue
+            for c in ast.walk(i.test):
+                if isinstance(c, ast.Call) and isinstance(c.func, ast.Attribute) and c.func.attr == "endswith" and c.args and isinstance(c.args[0], ast.Constant) and c.args[0].value in (".tflite", ".tosa"):
+                    out[c.args[0].value] = ("endswith", folded(c.func.value))
+                if isinstance(c, ast.Compare) and len(c.ops) == 1 and isinstance(c.ops[0], (ast.Eq, ast.In)):
+                    sides = [c.left] + c.comparators
+                    lits = [x.value for sd in sides for x in ast.walk(sd) if isinstance(x, ast.Constant) and x.value in (".tflite", ".tosa", "tflite", "tosa")]
+                    for lit in lits:
+                        other = [sd for sd in sides if not any(isinstance(x, ast.Constant) and x.value == lit for x in ast.walk(sd))]
+                        out["." + lit.lstrip(".")] = ("equals", any(folded(o) for o in other))
+        return out
+
+    rd = signatures("model_reader", "read_model")
+    wr = signatures("vela", "process")
+    if not rd or not wr:
+        raise AnalysisError(f"file-type dispatch not found (reader {rd}, driver {wr})")
+    for ext in sorted(set(rd) | set(wr)):
+        a, b = rd.get(ext), wr.get(ext)
+        if a is None or b is None:
+            continue
+        rep.check(a[1] == b[1], "C13-az", "ethosu/vela/model_reader.py:read_model / ethosu/vela/vela.py:process", f"`{ext}`: reader ({a[0]}, case folded: {a[1]}) and driver ({b[0]}, case folded: {b[1]}) accept the same names",
+                  f"`{ext}`: the reader folds case: {a[1]}, the driver: {b[1]}: a file named net{ext.upper()} is read and compiled but no output model is written (status 0; with --enable-debug-db FileNotFoundError)")
+
+
+def rule_subgraph_attr_shape(repo, rep):
+    """`attrs["subgraph"]` of control-flow operators is iterated by live_range / the writer (`for sg in op.attrs["subgraph"]`). Every store
+    into `<op>.attrs["subgraph"]` in the readers holds a tuple / list display (not a bare subgraph object), as all sibling stores do."""
+    n = 0
+    for mname in ("tflite_reader", "tosa_reader", "extract_npu_subgraphs"):
+        try:
+            m = repo.mod(mname)
+        except Exception:
+            continue
+        for q, fn in m.functions.items():
+            for a in ast.walk(fn):
+                if isinstance(a, ast.Assign) and isinstance(a.targets[0], ast.Subscript) and str(norm(a.targets[0].value)).endswith(".attrs") and isinstance(a.targets[0].slice, ast.Constant) \
+                        and a.targets[0].slice.value == "subgraph":
+                    if mname == "extract_npu_subgraphs":
+                        continue  # the NPU call operator: read as a single subgraph by its own consumers (CustomNpuOp is skipped by the iterating readers)
+                    n += 1
+                    v = a.value
+                    ok = isinstance(v, (ast.Tuple, ast.List)) or (isinstance(v, ast.Call) and (call_name(v) or "") in ("tuple", "list"))
+                    rep.check(ok, "C13-ba", f"ethosu/vela/{mname}.py:{q}", f"`{norm(a)[:90]}` stores a container of subgraphs",
+                              f"`{norm(a)[:90]}`: live_range.extract_live_ranges_from_cascaded_passes iterates the attribute: TypeError 'Subgraph' object is not iterable for a model with this operator")
+    if n < 2:
+        raise AnalysisError(f"readers: {n} stores into attrs['subgraph'] found")
